@@ -87,7 +87,10 @@ def run_mpe(cfg, tier):
         for s in sel:
             Explorer.cur.assume(z3.And(s.v >= 0, s.v <= df.v * (nf - 1)))
         st.update(df=df, freq=freq, S1=S1, S2=S2, Svec=Svec, sel=sel, DF=DF)
-        return tf.FDD_mpe(SymArray(Sval), Svec, freq, list(sel), DF=DF)
+        SvalA = SymArray(Sval)
+        # frame condition: the stored decomposition handed to the extraction must come back untouched (cell identity)
+        st["frame"] = [(nm, a, np.array(a, dtype=object).view(np.ndarray).copy()) for nm, a in (("Sval", SvalA), ("Svec", Svec), ("freq", freq))]
+        return tf.FDD_mpe(SvalA, Svec, freq, list(sel), DF=DF)
 
     for e, (kind, res) in ex.run_all(body):
         df, freq, S1, S2, Svec, sel, DF = (st[k] for k in ("df", "freq", "S1", "S2", "Svec", "sel", "DF"))
@@ -95,6 +98,14 @@ def run_mpe(cfg, tier):
             tally.decide(e, z3.BoolVal(True), on_sat=lambda m: cex_mpe(cfg, st, m, f"raised {type(res).__name__}: {res}"), label="no exception")
             continue
         Fn, Phi = res
+        touched = [f"{nm}{list(ix)}" for nm, a, a0 in st["frame"] for ix in np.ndindex(a0.shape)
+                   if np.asarray(a, dtype=object).view(np.ndarray)[ix] is not a0[ix]]
+        if touched:
+            Svec = SymArray(st["frame"][1][2])
+            st["Svec"] = Svec
+            tally.decide(e, z3.BoolVal(True), on_sat=lambda m: cex_mpe(cfg, st, m, f"FDD_mpe wrote into its inputs: {touched[:4]}"),
+                         label="inputs are not modified")
+            continue
         if np.shape(Fn) != (nreq,) or np.shape(Phi) != (nch, nreq):
             tally.decide(e, z3.BoolVal(True), on_sat=lambda m: cex_mpe(cfg, st, m, f"shapes {np.shape(Fn)} {np.shape(Phi)}"))
             continue
@@ -157,11 +168,16 @@ def replay_mpe(cfg, inputs):
     Svec = np.array(inputs["Svec"]).astype(complex)
     sel = [float(s) for s in inputs["sel"]]
     DF = float(inputs["DF"])
+    before = (Sval.copy(), Svec.copy(), freq.copy())
     try:
         with np.errstate(all="ignore"):
             Fn, Phi = fdd.FDD_mpe(Sval, Svec, freq, list(sel), DF=DF)
     except Exception as e:  # noqa: BLE001
         return True, f"FDD_mpe(sel={sel}, DF={DF:.6g}, df={df:.6g}, nf={nf}) raised {type(e).__name__}: {e}", "FDD_mpe:raises"
+    for nm, a0, a1 in zip(("S_val", "S_vec", "freq"), before, (Sval, Svec, freq)):
+        if not np.array_equal(a0, a1, equal_nan=True):
+            return True, f"FDD_mpe(sel={sel}, DF={DF:.6g}) modified the stored {nm} it was handed (no longer the decomposition of the spectrum)", "FDD_mpe:modifies-input"
+    Svec = before[1]
     ratio = Sval[0, 0, :] / Sval[1, 1, :]
     eps = 1e-9
     for m, s in enumerate(sel):
